@@ -414,7 +414,7 @@ func TestC01(t *testing.T) {
 
 	ths := make([]base.Threshold, c02MaxT10+1)
 	for t10 := c02MinT10; t10 <= c02MaxT10; t10++ {
-		ths[t10] = c02Threshold(t, t10)
+		ths[t10] = c02Threshold(t, nil, t10)
 	}
 
 	st := &c01Stats{}
